@@ -769,7 +769,91 @@ def c11_18(ctx):
     return out
 
 
+def c11_19(ctx):
+    """PSBT._describe_basic_multisig_inputs evaluated with scripts, keys and derivation as stand-ins: (a) the inputs of a summary share one
+    quorum -- a list of inputs in which one input, at any position, has another m or another n is refused; (b) a derivation record is accepted
+    only when the key found by deriving the cosigner's xpub along the STATED path, below the xpub's own depth, is the key in the script: a
+    record whose stated path has extra or other steps below the xpub (so that it names another key) is refused, whatever its last two steps
+    are"""
+    from sa.cells import Evaluator, Obj, Raised, Undecided
+    spec = "psbt:PSBT._describe_basic_multisig_inputs"
+    mod, fn = rl.get(ctx, spec)
+    XPUB_PATH = "m/48'/1'/0'/2'"
+
+    def trav(o, path, *a, **k):
+        return Obj("hd", "HDPublicKey", {"at": (o.attrs["xfp"], path.lower().replace("h", "'"))})
+    hooks = {("PSBTIn", "validate"): lambda o: True, ("Script", "get_quorum"): lambda o: o.attrs["quorum"], ("Script", "address"): lambda o, network="mainnet", **k: "addr",
+             ("HDPublicKey", "traverse"): trav, ("HDPublicKey", "sec"): lambda o, *a, **k: ("sec|%s|%s" % o.attrs["at"]).encode(), ("HDPublicKey", "xpub"): lambda o, *a, **k: "xpub-" + o.attrs["xfp"],
+             ("S256Point", "sec"): lambda o, *a, **k: o.attrs["sec_"], ("TxIn", "value"): lambda o, *a, **k: 1000, ("Script", "__repr__"): lambda o: "script",
+             ("Script", "__str__"): lambda o: "script"}
+    xfps = ["aaaaaaaa", "bbbbbbbb", "cccccccc"]
+    hdmap = {x: Obj("hd", "HDPublicKey", {"xfp": x, "depth": 4, "at": (x, "m")}) for x in xfps}
+
+    def named(xfp, true_tail, stated_path):
+        return Obj("psbt", "NamedPublicKey", {"root_fingerprint": bytes.fromhex(xfp), "root_path": stated_path, "sec_": ("sec|%s|m/%s" % (xfp, true_tail)).encode()})
+
+    def psbt_in(m, n, tails=None, stated=None):
+        tails = tails or {x: "0/5" for x in xfps}
+        stated = stated or {x: XPUB_PATH + "/" + tails[x] for x in xfps}
+        pubs = {("k", x): named(x, tails[x], stated[x]) for x in xfps}
+        return Obj("psbt", "PSBTIn", {"witness_script": Obj("script", "WitnessScript", {"quorum": (m, n)}), "redeem_script": None, "named_pubs": pubs,
+                                      "tx_in": Obj("tx", "TxIn", {"prev_tx": b"\x01" * 32, "prev_index": 0, "sequence": 0xFFFFFFFF})})
+
+    def run(ins):
+        me = Obj("psbt", "PSBT", {"psbt_ins": ins, "network": "testnet"})
+        try:
+            r = Evaluator(ctx.repo, method_hooks=hooks, max_steps=2000000).call(spec, [dict(hdmap)], self_obj=me)
+            return True, r
+        except Raised as x:
+            return False, x.name
+    out = []
+    try:
+        bad = None
+        cases = [([(2, 3)], True), ([(2, 3), (2, 3)], True), ([(2, 3), (2, 3), (2, 3)], True)]
+        for other in ((1, 3), (3, 3), (2, 2), (2, 4)):
+            for n_in in (2, 3):
+                for pos in range(n_in):
+                    q = [(2, 3)] * n_in
+                    q[pos] = other
+                    cases.append((q, False))
+        for quorums, ok in cases:
+            ctx.count("cells")
+            acc, r = run([psbt_in(m, n) for m, n in quorums])
+            if acc != ok:
+                bad = "inputs with quorums %s are %s" % (["%d-of-%d" % q for q in quorums], "summarised as one wallet's although they differ in threshold or key count" if acc else "refused (%s)" % r)
+                break
+            if acc and (r.get("inputs_quorum_m"), r.get("inputs_quorum_n")) != (2, 3):
+                bad = "inputs with quorum 2-of-3 are summarised as %s-of-%s" % (r.get("inputs_quorum_m"), r.get("inputs_quorum_n"))
+                break
+        out.append(ctx.bad(spec, bad, fn, mod, key="inputs-quorum") if bad else ctx.ok(spec, "%d input lists: one quorum (m and n) for all inputs, an odd input refused at every position" % len(cases),
+                                                                                    fn, mod, key="inputs-quorum"))
+        bad = None
+        pcases = [("honest path", "0/5", XPUB_PATH + "/0/5", True), ("honest path, h notation", "1/0", "m/48h/1h/0h/2h/1/0", True),
+                  ("an extra step below the xpub", "1/0", XPUB_PATH + "/7/1/0", False), ("another index", "1/0", XPUB_PATH + "/1/1", False),
+                  ("another branch", "1/0", XPUB_PATH + "/0/0", False), ("a step missing", "1/0", XPUB_PATH + "/0", False), ("two extra steps", "1/0", XPUB_PATH + "/3/4/1/0", False)]
+        for label, tail, stated, ok in pcases:
+            for who in xfps[:2]:
+                ctx.count("cells")
+                tails = {x: tail for x in xfps}
+                st = {x: XPUB_PATH + "/" + tail for x in xfps}
+                st[who] = stated
+                acc, r = run([psbt_in(2, 3, tails, st)])
+                if acc != ok:
+                    bad = "a derivation record of cosigner %s with %s (key at <xpub>/%s, stated path %s) is %s" % (
+                        who, label, tail, stated, "accepted: the stated path does not lead to the key, the summary vouches for a wrong path" if acc else "refused (%s)" % r)
+                    break
+            if bad:
+                break
+        out.append(ctx.bad(spec, bad, fn, mod, key="inputs-path") if bad else ctx.ok(spec, "%d derivation records: accepted exactly when the stated path below the xpub leads to the key" % (2 * len(pcases)),
+                                                                                  fn, mod, key="inputs-path"))
+    except Undecided as u:
+        return [ctx.err(spec, "input summary not evaluable: %s" % u, fn, mod)]
+    return out
+
+
+
 OBLIGATIONS = [
+    ("C11.19", "CELLS input summary", c11_19),
     ("C11.18", "CELLS opcode", c11_18),
     ("C11.17", "SHARED", c11_17),
     ("C11.16", "SET-ORDER", c11_16),
